@@ -1,5 +1,5 @@
 //! C15 — the mutable DOM matches a plain array/map model under every operation history.
-use sonic_rs::{JsonValueMutTrait, Value};
+use sonic_rs::{JsonValueMutTrait, JsonValueTrait, Value};
 
 use crate::core::{Case, Check, Ctx, GenParams, Tier};
 use crate::mon::machine::*;
@@ -194,6 +194,203 @@ pub fn concrete_ops() -> Vec<Op> {
     v
 }
 
+/// Containers of a thousand and more elements from every origin (uniquely owned, shared with a
+/// live clone, still inside the parsed arena, a typed `Array`/`Object` read by serde), through the
+/// bulk operations that take a closure. The closures keep state (a de-duplication set, a keep mask
+/// by position, a counter), as their documentation allows: "visiting each element exactly once in
+/// the original order". Model: `Vec` with the same closure; the visit log is compared too.
+fn big_containers(ctx: &mut Ctx, seed: u64) {
+    use sonic_rs::{Array, Object};
+    use std::collections::HashSet;
+    let mut r = Rng::new(seed);
+    let n = *r.pick(&[1000usize, 1023, 1024, 1025, 1500, 2048, 4097]);
+    let dup_every = 2 + r.below(5) as usize;
+    let items: Vec<u64> = (0..n).map(|i| if i % dup_every == 0 { (i / 7) as u64 } else { 1_000_000 + i as u64 }).collect();
+    let text = format!("[{}]", items.iter().map(|x| x.to_string()).collect::<Vec<_>>().join(","));
+    let origin = r.below(6);
+    // the live sharers are kept until the end and compared with the untouched text
+    let mut sharers: Vec<Value> = vec![];
+    let mut arr: Array = match origin {
+        0 => sonic_rs::from_str::<Array>(&text).unwrap(),
+        1 => {
+            let v: Value = sonic_rs::from_str(&text).unwrap();
+            let a = v.clone().into_array().unwrap();
+            sharers.push(v);
+            a
+        }
+        2 => {
+            let a: Array = items.iter().map(|x| Value::from(*x)).collect::<Vec<Value>>().into();
+            sharers.push(Value::from(a.clone()));
+            a
+        }
+        3 => items.iter().map(|x| Value::from(*x)).collect::<Vec<Value>>().into(),
+        4 => {
+            let v: Value = sonic_rs::from_str(&format!("{{\"a\":{}}}", text)).unwrap();
+            let a = v["a"].clone().into_array().unwrap();
+            sharers.push(v);
+            a
+        }
+        _ => {
+            #[derive(serde::Deserialize)]
+            struct W {
+                a: Array,
+            }
+            sonic_rs::from_str::<W>(&format!("{{\"a\":{}}}", text)).unwrap().a
+        }
+    };
+    ctx.class(["big:typed-array", "big:clone-of-parsed", "big:owned-with-live-clone", "big:owned-unique", "big:subtree-clone", "big:struct-field"][origin as usize]);
+    let mut model: Vec<u64> = items.clone();
+    let as_model = |a: &Array| -> Vec<u64> { a.iter().map(|v| v.as_u64().unwrap_or(u64::MAX)).collect() };
+    for step in 0..4 {
+        let which = r.below(6);
+        let (mut log_real, mut log_model): (Vec<u64>, Vec<u64>) = (vec![], vec![]);
+        ctx.ops(1);
+        match which {
+            0 => {
+                // de-duplication
+                let (mut seen_r, mut seen_m) = (HashSet::new(), HashSet::new());
+                arr.retain(|v| {
+                    let x = v.as_u64().unwrap_or(u64::MAX);
+                    log_real.push(x);
+                    seen_r.insert(x)
+                });
+                model.retain(|x| {
+                    log_model.push(*x);
+                    seen_m.insert(*x)
+                });
+            }
+            1 => {
+                // keep mask by position
+                let m = 2 + r.below(4);
+                let (mut i, mut j) = (0u64, 0u64);
+                arr.retain(|v| {
+                    log_real.push(v.as_u64().unwrap_or(u64::MAX));
+                    i += 1;
+                    i % m != 0
+                });
+                model.retain(|x| {
+                    log_model.push(*x);
+                    j += 1;
+                    j % m != 0
+                });
+            }
+            2 => {
+                // nothing rejected, one rejected at the very end
+                let last = model.last().copied();
+                let (mut i, mut j) = (0usize, 0usize);
+                let len = model.len();
+                arr.retain(|v| {
+                    log_real.push(v.as_u64().unwrap_or(u64::MAX));
+                    i += 1;
+                    i != len
+                });
+                model.retain(|x| {
+                    log_model.push(*x);
+                    j += 1;
+                    j != len
+                });
+                let _ = last;
+            }
+            3 => {
+                let (mut i, mut j) = (0u64, 0u64);
+                arr.retain_mut(|v| {
+                    let x = v.as_u64().unwrap_or(u64::MAX);
+                    log_real.push(x);
+                    i += 1;
+                    if i % 3 == 0 {
+                        false
+                    } else {
+                        *v = Value::from(x ^ 1);
+                        true
+                    }
+                });
+                model.retain_mut(|x| {
+                    log_model.push(*x);
+                    j += 1;
+                    if j % 3 == 0 {
+                        false
+                    } else {
+                        *x ^= 1;
+                        true
+                    }
+                });
+            }
+            4 => {
+                let len = model.len();
+                if len > 4 {
+                    let a = r.below(len as u64 / 2) as usize;
+                    let b = a + r.below((len - a) as u64) as usize;
+                    let dr: Vec<u64> = arr.drain(a..b).map(|v| v.as_u64().unwrap_or(u64::MAX)).collect();
+                    let dm: Vec<u64> = model.drain(a..b).collect();
+                    log_real = dr;
+                    log_model = dm;
+                }
+            }
+            _ => {
+                let len = model.len();
+                let at = r.below(len as u64 + 1) as usize;
+                let tail_r = arr.split_off(at);
+                let tail_m = model.split_off(at);
+                log_real = as_model(&tail_r);
+                log_model = tail_m.clone();
+                // put half of it back
+                for x in tail_m.iter().take(tail_m.len() / 2) {
+                    arr.push(Value::from(*x));
+                    model.push(*x);
+                }
+            }
+        }
+        if log_real != log_model {
+            let at = log_real.iter().zip(&log_model).position(|(a, b)| a != b).unwrap_or(log_real.len().min(log_model.len()));
+            ctx.fail(&format!("big-visit-log-differs:op{}", which), format!("step {} on {} elements (origin {}): the closure saw {} elements, the Vec model's saw {}; first difference at visit {}", step, n, origin, log_real.len(), log_model.len(), at));
+            return;
+        }
+        let got = as_model(&arr);
+        if got != model {
+            let at = got.iter().zip(&model).position(|(a, b)| a != b).unwrap_or(got.len().min(model.len()));
+            ctx.fail(&format!("big-result-differs:op{}", which), format!("step {} on {} elements (origin {}): {} elements left, the Vec model has {}; first difference at index {}", step, n, origin, got.len(), model.len(), at));
+            return;
+        }
+    }
+    for s in &sharers {
+        let t = sonic_rs::to_string(s).unwrap_or_default();
+        if !(t == text || t == format!("{{\"a\":{}}}", text)) {
+            ctx.fail("big-sharer-changed", format!("a value sharing the array's origin changed: now {} bytes", t.len()));
+        }
+    }
+    // objects: retain with a stateful closure, against the association-list model
+    let m = *r.pick(&[300usize, 1024, 2500]);
+    let otext = format!("{{{}}}", (0..m).map(|i| format!("\"k{}\":{}", i, i % 9)).collect::<Vec<_>>().join(","));
+    let mut obj: Object = if r.chance(1, 2) {
+        sonic_rs::from_str::<Object>(&otext).unwrap()
+    } else {
+        let v: Value = sonic_rs::from_str(&otext).unwrap();
+        let o = v.clone().into_object().unwrap();
+        sharers.push(v);
+        o
+    };
+    let mut omodel: Vec<(String, u64)> = (0..m).map(|i| (format!("k{}", i), (i % 9) as u64)).collect();
+    // (members are visited "in unsorted (and unspecified) order": the closure only counts and
+    // remembers which names it saw, the decision depends on the member alone)
+    let mut seen: Vec<String> = vec![];
+    obj.retain(|k, v| {
+        seen.push(k.to_string());
+        v.as_u64().unwrap_or(u64::MAX) % 3 != 0
+    });
+    omodel.retain(|(_, v)| *v % 3 != 0);
+    ctx.ops(1);
+    let calls = seen.len();
+    seen.sort();
+    seen.dedup();
+    let mut got: Vec<(String, u64)> = obj.iter().map(|(k, v)| (k.to_string(), v.as_u64().unwrap_or(u64::MAX))).collect();
+    got.sort();
+    omodel.sort();
+    if calls != m || seen.len() != m || got != omodel {
+        ctx.fail("big-result-differs:Object::retain", format!("{} members: the closure was called {} times on {} distinct names, {} members left (model {})", m, calls, seen.len(), got.len(), omodel.len()));
+    }
+    ctx.class("mode:big-containers");
+}
+
 impl Check for C15 {
     fn id(&self) -> &'static str {
         "C15"
@@ -216,8 +413,11 @@ impl Check for C15 {
                 s += batch;
             }
         }
-        // random long histories from every kind of starting value
         let mut r = g.rng(15);
+        for _ in 0..g.count(3_000, 100_000) {
+            emit(Case::with("big", vec![], &[r.next() as i64]));
+        }
+        // random long histories from every kind of starting value
         let n = g.count(60_000, 3_000_000);
         for k in 0..n {
             emit(Case::with("history", vec![], &[r.next() as i64, 200, k as i64 % 7]));
@@ -244,6 +444,10 @@ impl Check for C15 {
                 }
                 ctx.class("mode:exhaustive-short-sequences");
                 ctx.sample("exhaustive");
+            }
+            "big" => {
+                big_containers(ctx, c.p(0) as u64);
+                ctx.sample("big");
             }
             _ => {
                 let mut r = Rng::new(c.p(0) as u64);
@@ -299,6 +503,7 @@ impl Check for C15 {
         vec![
             "mode:exhaustive-short-sequences",
             "mode:random-history",
+            "mode:big-containers",
             "history:mutation-after-clone",
             "op:rejected-by-model",
             "start:parsed-root",
